@@ -409,6 +409,7 @@ class Inliner:
                     st.update(src)
                     nb['stmts'].append(st)
                     nb['term'] = dict({'k': 'goto', 'target': ready_cont if ready_cont is not None else cont}, **src)
+                    nb['poll_return'] = True
                 else:
                     st = {'k': 'assign', 'lhs': copy.deepcopy(t['dest']), 'rv': {'k': 'use', 'op': {'mv': _place(loff)}}}
                     st.update(src)
@@ -418,6 +419,8 @@ class Inliner:
         caller['blocks'].extend(new_blocks)
         if kind != 'poll' and cont is not None and not t['dest'].get('p'):
             self.thread_returns(caller, boff, len(new_blocks), loff, t['dest']['l'], cont)
+        if kind == 'poll' and ready_cont is not None:
+            self.thread_poll_returns(caller, boff, len(new_blocks), loff, ready_cont)
         if kind != 'poll' and cont is not None and not t['dest'].get('p'):
             # the helper's return slot IS the destination: `_0 = Ok(())` of the helper is the caller's own `_0 = Ok(())`
             dl = t['dest']['l']
@@ -712,6 +715,85 @@ class Inliner:
                 if 'targets' in lt:
                     lt['targets'] = [[v_, (nxt if b_ == first_old else b_)] for v_, b_ in lt['targets']]
 
+
+    def thread_poll_returns(self, caller, boff, n, ret_slot, ready_cont):
+        """`helper(..).await?`: a branch of a spliced async helper that returns Err(..) (an early `return Err`, a `?` of its
+        own) leaves through the caller's `?` as well, one that returns Ok(..) continues - the chain from the Ready edge of the
+        await (unwrap the Poll, drop the awaitee, Try::branch, switch) is replicated for each return with a known variant."""
+        chain = []
+        x = ready_cont
+        br = None
+        for _ in range(8):
+            blk = caller['blocks'][x]
+            t_ = blk['term']
+            if t_['k'] == 'call' and re.search(r'as std::ops::Try>::branch$', (_callee(t_)[0] or '')) and isinstance(t_.get('target'), int):
+                br = x
+                break
+            if t_['k'] in ('goto', 'drop') and isinstance(t_.get('target'), int):
+                chain.append(x)
+                x = t_['target']
+                continue
+            return
+        if br is None:
+            return
+        bt = caller['blocks'][br]['term']
+        sw = caller['blocks'][bt['target']]
+        st_ = sw['term']
+        if st_['k'] != 'switch' or bt['dest'].get('p'):
+            return
+        dl = _op_local(st_['discr'])
+        if dl is None or not any(q['k'] == 'assign' and q['lhs']['l'] == dl and q['rv']['k'] == 'discr' and q['rv']['place']['l'] == bt['dest']['l'] and not q['rv']['place'].get('p') for q in sw['stmts']):
+            return
+        targets = dict((v, b_) for v, b_ in st_['targets'])
+        D = None
+        for ri in range(boff, boff + n):
+            rb = caller['blocks'][ri]
+            if rb.get('poll_return') and rb['stmts'] and rb['stmts'][-1]['k'] == 'assign':
+                D = rb['stmts'][-1]['lhs']['l']
+        if D is None:
+            return
+        for ri, pchain, last, vs in self._return_sites(caller, boff, n, ret_slot, D, ready_cont):
+            if len(vs) != 1:
+                continue
+            v = next(iter(vs))
+            if not (isinstance(v, tuple) and v[0] == 'var' and v[1] in ('std::result::Result', 'std::option::Option')):
+                continue
+            val = v[2] if v[1] == 'std::result::Result' else (0 if v[2] == 1 else 1)
+            tgt = targets.get(val, st_['otherwise'])
+            caller['blocks'].append({'cleanup': False, 'stmts': copy.deepcopy(sw['stmts']), 'term': {'k': 'goto', 'target': tgt, 'threaded': True}})
+            nxt = len(caller['blocks']) - 1
+            cbr = copy.deepcopy(caller['blocks'][br])
+            cbr['term']['target'] = nxt
+            cbr['term']['threaded'] = True
+            caller['blocks'].append(cbr)
+            nxt = len(caller['blocks']) - 1
+            for ci in reversed(chain):
+                cblk = copy.deepcopy(caller['blocks'][ci])
+                cblk['term'] = dict(cblk['term'], target=nxt)
+                caller['blocks'].append(cblk)
+                nxt = len(caller['blocks']) - 1
+            rb = caller['blocks'][ri]
+            if last is None:
+                rb['term'] = dict(rb['term'], target=nxt, threaded=True)
+                continue
+            # the return block is shared by several ways: replicate it (and the pass-through blocks before it) for this way
+            crb = copy.deepcopy(rb)
+            crb['term'] = dict(crb['term'], target=nxt, threaded=True)
+            caller['blocks'].append(crb)
+            nxt = len(caller['blocks']) - 1
+            first_old = ri
+            for ci in reversed(pchain):
+                cblk = copy.deepcopy(caller['blocks'][ci])
+                cblk['term'] = dict(cblk['term'], target=nxt)
+                caller['blocks'].append(cblk)
+                nxt = len(caller['blocks']) - 1
+                first_old = ci
+            lt = caller['blocks'][last]['term']
+            for k_ in ('target', 'otherwise', 'resume'):
+                if lt.get(k_) == first_old:
+                    lt[k_] = nxt
+            if 'targets' in lt:
+                lt['targets'] = [[v_, (nxt if b_ == first_old else b_)] for v_, b_ in lt['targets']]
 
     def _thread_new_blocks(self, body, base, dest, T):
         """After a combinator was expanded: branches that assign a known variant to the result continue directly on the
